@@ -1655,14 +1655,17 @@ class AstEval:
 
     async def ast_compare(self, arg):
         """Evaluate comparison operators by calling function based on class."""
-        left = arg.left
+        # each operand is evaluated once; the result is that of the last comparison made
+        left = ast.Constant(value=await self.aeval(arg.left))
+        val = True
         for cmp_op, right in zip(arg.ops, arg.comparators):
+            right = ast.Constant(value=await self.aeval(right))
             name = "ast_cmpop_" + cmp_op.__class__.__name__.lower()
             val = await getattr(self, name, self.ast_not_implemented)(left, right)
             if not val:
-                return False
+                return val
             left = right
-        return True
+        return val
 
     async def ast_cmpop_eq(self, arg0, arg1):
         """Evaluate comparison operator: ==."""
